@@ -25,23 +25,71 @@ import (
 )
 
 const (
-	repo  = "/repo"
 	verif = "/verif"
 	goBin = "go1.26.8"
 )
 
+// repo is the tree under test; VERIF_REPO points checks at a scratch
+// worktree (used for sensitivity experiments), default /repo.
+var repo = envOr("VERIF_REPO", "/repo")
+
+// outDir is where evidence/ and replays/ are written (default /verif).
+var outDir = envOr("VERIF_OUTDIR", verif)
+
+func envOr(k, d string) string {
+	if v := os.Getenv(k); v != "" {
+		return v
+	}
+	return d
+}
+
 type spec struct {
-	Prop     string
-	Engine   string // directory under /verif/sim
-	Pkg      string // package (relative to /repo) whose test binary hosts the engine
-	Level    string
-	QuickS   int // wall budget of the worker loop, seconds
-	ThoroS   int
-	Workers  int // 0 = 16
-	Custom   func(s *spec, tier string, seed uint64, scratch string) int
-	RuleText string
+	Prop     string `json:"property"`
+	Engine   string `json:"engine"`  // directory under /verif/sim
+	Pkg      string `json:"package"` // package (relative to the repo) whose test binary hosts the engine
+	Level    string `json:"level"`
+	QuickS   int    `json:"quick_budget_s"` // wall budget of the worker loop, seconds
+	ThoroS   int    `json:"thorough_budget_s"`
+	Workers  int    `json:"workers,omitempty"` // 0 = 16
+	Custom   func(s *spec, tier string, seed uint64, scratch string) int `json:"-"`
+	CustomName string `json:"custom,omitempty"`
+	RuleText string `json:"rule"`
 	// manifest texts
-	Technique, LevelText, LevelNote, DesignRef, EngineText string
+	Technique  string `json:"technique"`
+	LevelText  string `json:"level_text"`
+	LevelNote  string `json:"level_note"`
+	DesignRef  string `json:"design_ref"`
+	EngineText string `json:"engine_text"`
+}
+
+var specs []*spec
+
+var customs = map[string]func(s *spec, tier string, seed uint64, scratch string) int{}
+
+// loadSpecs reads /verif/sim/*/spec.json (a JSON array of spec objects per engine).
+func loadSpecs() {
+	files, _ := filepath.Glob(filepath.Join(verif, "sim", "*", "spec.json"))
+	sort.Strings(files)
+	for _, f := range files {
+		b, err := os.ReadFile(f)
+		if err != nil {
+			die(2, "%v", err)
+		}
+		var ss []*spec
+		if err := json.Unmarshal(b, &ss); err != nil {
+			die(2, "%s: %v", f, err)
+		}
+		for _, s := range ss {
+			if s.CustomName != "" {
+				s.Custom = customs[s.CustomName]
+				if s.Custom == nil {
+					die(2, "%s: unknown custom driver %q", f, s.CustomName)
+				}
+			}
+			specs = append(specs, s)
+		}
+	}
+	sort.SliceStable(specs, func(i, j int) bool { return specs[i].Prop < specs[j].Prop })
 }
 
 func runOut(name string, args ...string) (string, error) {
@@ -336,15 +384,15 @@ func runSim(s *spec, tier string, seed uint64, scratch string) int {
 	}
 
 	// replay files (those of earlier runs of this property are replaced)
-	os.MkdirAll(filepath.Join(verif, "replays"), 0755)
-	if old, _ := filepath.Glob(filepath.Join(verif, "replays", s.Prop+"-*.json")); len(old) > 0 {
+	os.MkdirAll(filepath.Join(outDir, "replays"), 0755)
+	if old, _ := filepath.Glob(filepath.Join(outDir, "replays", s.Prop+"-*.json")); len(old) > 0 {
 		for _, f := range old {
 			os.Remove(f)
 		}
 	}
 	var vlines []string
 	for _, p := range agg.Violations {
-		dst := filepath.Join(verif, "replays", s.Prop+"-"+filepath.Base(p))
+		dst := filepath.Join(outDir, "replays", s.Prop+"-"+filepath.Base(p))
 		if err := copyFile(p, dst); err != nil {
 			die(2, "%v", err)
 		}
@@ -375,7 +423,7 @@ func runSim(s *spec, tier string, seed uint64, scratch string) int {
 		ko := agg.Known[k]
 		dst := ""
 		if ko.Replay != "" {
-			dst = filepath.Join(verif, "replays", "known-"+s.Prop+"-"+strings.ReplaceAll(strings.TrimPrefix(k, s.Prop+"/"), "/", "_")+".json")
+			dst = filepath.Join(outDir, "replays", "known-"+s.Prop+"-"+strings.ReplaceAll(strings.TrimPrefix(k, s.Prop+"/"), "/", "_")+".json")
 			copyFile(ko.Replay, dst)
 		}
 		fmt.Printf("KNOWN-FINDING: property=%s class=%s seen=%d replay=%s %s\n", s.Prop, k, ko.Count, dst, what)
@@ -449,9 +497,9 @@ func runSim(s *spec, tier string, seed uint64, scratch string) int {
 			"built from /repo's working tree with go1.26.8, -tags verif, testing/synctest fake clock where the engine says so",
 		},
 	}
-	os.MkdirAll(filepath.Join(verif, "evidence"), 0755)
+	os.MkdirAll(filepath.Join(outDir, "evidence"), 0755)
 	eb, _ := json.MarshalIndent(ev, "", " ")
-	if err := os.WriteFile(filepath.Join(verif, "evidence", s.Prop+".json"), eb, 0644); err != nil {
+	if err := os.WriteFile(filepath.Join(outDir, "evidence", s.Prop+".json"), eb, 0644); err != nil {
 		die(2, "%v", err)
 	}
 	fmt.Printf("%s %s: engine=%s runs=%d distinct_nontrivial=%d sim_time=%ds faults=%v wall=%.1fs (build %.1fs)\n",
@@ -516,6 +564,7 @@ func replay(s *spec, path string, scratch string) int {
 }
 
 func main() {
+	loadSpecs()
 	if len(os.Args) >= 2 && os.Args[1] == "--list" {
 		for _, s := range specs {
 			fmt.Printf("%s engine=%s pkg=%s level=%s quick=%ds thorough=%ds\n", s.Prop, s.Engine, s.Pkg, s.Level, s.QuickS, s.ThoroS)
